@@ -885,3 +885,83 @@ def check_no_shared_class_state(c: Check, rule: str, prefixes, floor: int, what:
     if sorted(h[1] for h in got) != want:
         raise AnalysisError('%s: positive control of shared-class-state failed: reported lines %s, expected %s' % (
             rule, sorted(h[1] for h in got), want))
+
+
+# ------------------------------------------------------------------ CONTRA: a value found absent is not used
+
+def _value_key(e):
+    if isinstance(e, ast.Name):
+        return e.id
+    if isinstance(e, ast.Attribute):
+        k = _value_key(e.value)
+        return None if k is None else k + '.' + e.attr
+    return None
+
+
+def uses_of_values_found_absent(m) -> List[Tuple[int, str, str]]:
+    """[(line, function key, expression)]: inside the branch of an `if` in which a name / attribute path has just been
+    found to be None or false (`if not x:` / `if x is None:` - or the else-branch of `if x:` / `if x is not None:`),
+    an attribute of that same value is read before the value is assigned again.  One of the two is wrong: either the
+    test has the wrong polarity (an optional delegate - validator, matcher, message - is consulted exactly when it is
+    absent and skipped when it is there) or the use raises AttributeError on None."""
+    out = []
+    for x in ast.walk(m.tree):
+        if not isinstance(x, ast.If):
+            continue
+        t = x.test
+        cases = []
+        if isinstance(t, ast.UnaryOp) and isinstance(t.op, ast.Not):
+            cases.append((_value_key(t.operand), x.body))
+        elif isinstance(t, ast.Compare) and len(t.ops) == 1 and isinstance(t.comparators[0], ast.Constant) \
+                and t.comparators[0].value is None:
+            if isinstance(t.ops[0], ast.Is):
+                cases.append((_value_key(t.left), x.body))
+            elif isinstance(t.ops[0], ast.IsNot):
+                cases.append((_value_key(t.left), x.orelse))
+        else:
+            cases.append((_value_key(t), x.orelse))
+        for k, stmts in cases:
+            if k is None:
+                continue
+            done = False
+            for st_ in stmts:
+                if done:
+                    break
+                for n in ast.walk(st_):
+                    if isinstance(n, (ast.Assign, ast.AugAssign, ast.AnnAssign)):
+                        tg = n.targets if isinstance(n, ast.Assign) else [n.target]
+                        if any(_value_key(t_) == k for t_ in tg):
+                            done = True
+                            break
+                    if isinstance(n, ast.Attribute) and isinstance(n.ctx, ast.Load) and _value_key(n.value) == k:
+                        f = m.enclosing_func(n)
+                        out.append((n.lineno, f.key if f else m.name, unparse(n)))
+    return out
+
+
+def check_no_use_of_absent_value(c: Check, rule: str, prefixes, floor: int, what: str) -> None:
+    from ..report import VERIF_ROOT
+    import os
+    ix = c.ix
+    n_mod = 0
+    n_hits = 0
+    for name in ix.all_module_names():
+        if not any(name == p or name.startswith(p + '.') for p in prefixes):
+            continue
+        n_mod += 1
+        m = ix.module(name)
+        for line, fkey, expr in uses_of_values_found_absent(m):
+            n_hits += 1
+            c.bad(rule, 'absent-value-used/%s/%s' % (fkey, expr),
+                  '`%s` is read in the branch where the value before the dot has just been found absent (None / false): '
+                  'the test has the wrong polarity or the use raises on None (%s)' % (expr, what),
+                  '%s:%d' % (m.relpath, line))
+    if not n_hits:
+        c.ok(rule, 'absent-value-used/none', detail='%d modules' % n_mod)
+    c.floor(rule, 'modules scanned for uses of values found absent', n_mod, floor)
+    fx = Index(os.path.join(VERIF_ROOT, 'fixtures', 'evaluators'))
+    fm = fx.module('exactly_lib.impls.fixture_absent')
+    got = sorted(h[0] for h in uses_of_values_found_absent(fm))
+    want = sorted(i + 1 for i, line in enumerate(fm.src.splitlines()) if '# EXPECT absent' in line)
+    if got != want:
+        raise AnalysisError('%s: positive control of absent-value-used failed: lines %s, expected %s' % (rule, got, want))
